@@ -119,15 +119,32 @@ public:
       for (auto const& [key, value] : *named_args)
       {
         _json_message.append(std::string_view{",\""});
-        _json_message.append(key);
+        _append_escaping_newlines(key);
         _json_message.append(std::string_view{"\":\""});
-        _json_message.append(value);
+        _append_escaping_newlines(value);
         _json_message.append(std::string_view{"\""});
       }
     }
   }
 
 protected:
+  /**
+   * Appends text to _json_message. A new line in it would end the json line early, it is written
+   * as the json escape sequence (backslash followed by n) instead
+   */
+  void _append_escaping_newlines(std::string_view text)
+  {
+    size_t start = 0;
+
+    for (size_t pos = 0; (pos = text.find('\n', start)) != std::string_view::npos; start = pos + 1)
+    {
+      _json_message.append(text.substr(start, pos - start));
+      _json_message.append(std::string_view{"\\n"});
+    }
+
+    _json_message.append(text.substr(start));
+  }
+
   fmtquill::memory_buffer _json_message;
   std::string _format;
 };
